@@ -28,10 +28,10 @@ func init() {
 		Families: func(c *mon.Config) []mon.Family {
 			reps := c.Pick(6, 1000)
 			return []mon.Family{
-				{Name: "join", N: len(c14Widths) * 131 * reps, Run: c14Join},
+				{Name: "join", Env: 4, N: len(c14Widths) * 131 * reps, Run: c14Join},
 				{Name: "slice-all", N: c.Pick(900, 150000), Run: c14SliceAll},
-				{Name: "slice-zoo", N: c.Pick(4000, 1000000), Run: c14SliceZoo},
-				{Name: "join-long", N: 7 * c.Pick(2, 100), Run: c14JoinLong},
+				{Name: "slice-zoo", Env: 6, N: c.Pick(4000, 1000000), Run: c14SliceZoo},
+				{Name: "join-long", Env: 3, N: 7 * c.Pick(2, 100), Run: c14JoinLong},
 			}
 		},
 	})
